@@ -11,7 +11,12 @@ from harness.progs import ref, vm
 X = ("x0", "ctx", 0, (), None)
 XC = ("x0", "ctx", 0, (), {"context": {"k": 1}})
 # the same call under a context first, then without (the Coq witness), and the other way round
-WITNESSES = [("ctx-first", ("root", "seq", 0, (XC, X), None)), ("plain-first", ("root", "seq", 0, (X, XC), None))]
+Q = ("q0", "cfail", 0, (), None)
+QC = ("q0", "cfail", 0, (), {"context": {"k": 1}})
+WITNESSES = [("ctx-first", ("root", "seq", 0, (XC, X), None)), ("plain-first", ("root", "seq", 0, (X, XC), None)),
+             # a call that fails under a context (caught), then the same call without context must succeed
+             ("failed-under-ctx-first", ("root", "seq", 0, (("c", "catch", 0, (QC,), None), Q), None)),
+             ("failed-plain-order", ("root", "seq", 0, (Q, ("c", "catch", 0, (QC,), None)), None))]
 
 
 def norm(v):
